@@ -127,3 +127,28 @@ Theorem C09_iter_checkpoint_after_faulty_step_resumes_exactly : forall c, c_kind
   outcomes c (S (length rest)) sr sched' = map OBatch rest ++ [OStop].
 Proof. exact iter_checkpoint_after_faulty_step_resumes. Qed.
 Print Assumptions C09_iter_checkpoint_after_faulty_step_resumes_exactly.
+
+(* the same for iterable datasets WITHOUT a state of their own (a resume takes the fast-forward path: fresh workers, the batches given so
+   far replayed). FreshAt c p s: s is an iterator over fresh workers p batches into the epoch, its snapshot taken at step p.  The fresh
+   iterator is FreshAt 0; a next() under ANY fault schedule delivers the batch that is due and leaves FreshAt (p+1), or reports
+   StopIteration when nothing is left, or raises the worker-died error; and the checkpoint taken after any delivered batch resumes
+   exactly, under every arrival schedule of the replay and of the resumed run *)
+Theorem C09_iter_fast_forward_fresh : forall c, c_kind c = KIter -> 0 < c_W c -> 0 < c_P c -> c_I c = 1 -> FreshAt c 0 (sdl_fresh c).
+Proof. exact fresh_at0. Qed.
+Print Assumptions C09_iter_fast_forward_fresh.
+
+Theorem C09_iter_fast_forward_fault_step : forall c, c_kind c = KIter -> 0 < c_W c -> 0 < c_P c -> c_I c = 1 ->
+  forall p s cr evs fuel, FreshAt c p s ->
+  exists o s' cr' evs', next_data_f fuel c s cr evs = (o, s', cr', evs') /\
+    (benignF o \/ match skipn p (reference c) with [] => o = FO OStop | b :: _ => o = FO (OBatch b) /\ FreshAt c (S p) s' end).
+Proof. exact ff_fault_step. Qed.
+Print Assumptions C09_iter_fast_forward_fault_step.
+
+Theorem C09_iter_fast_forward_checkpoint_after_faulty_step_resumes_exactly : forall c, c_kind c = KIter -> 0 < c_W c -> 0 < c_P c ->
+  c_stateful c = false -> c_I c = 1 ->
+  forall p b s cr evs fuel s' cr' evs' sched,
+  FreshAt c p s -> next_data_f fuel c s cr evs = (FO (OBatch b), s', cr', evs') ->
+  let '(sr, sched') := sdl_resume c (state_dict s') sched in
+  outcomes c (S (length (reference c) - S p)) sr sched' = map OBatch (skipn (S p) (reference c)) ++ [OStop].
+Proof. exact ff_checkpoint_after_faulty_step_resumes. Qed.
+Print Assumptions C09_iter_fast_forward_checkpoint_after_faulty_step_resumes_exactly.
